@@ -2147,6 +2147,11 @@ class Engine:
         known = {pn for pn, _ in c.params}
         fa = self.fn.args
         pos = fa.posonlyargs + fa.args
+        # callers are checked against the contract with POSITIONAL arguments bound in the contract's parameter order: that order must be the real one
+        real_order = [a.arg for a in pos if a.arg in known]
+        want_order = [pn for pn, _ in c.params if pn in {a.arg for a in pos}]
+        if real_order != want_order:
+            raise OutOfSubset('the positional parameters of the real function are %s, the contract binds call sites in the order %s' % (real_order, want_order))
         extra = [(a, d) for a, d in zip(pos[len(pos) - len(fa.defaults):], fa.defaults)] + [(a, d) for a, d in zip(fa.kwonlyargs, fa.kw_defaults) if d is not None]
         for a, d in extra:
             if a.arg in known:
